@@ -425,6 +425,10 @@ def classTable : ClassTable where
       ("VMix",   { name := "VMix", slots := [.optMany "kids", .optOne "p", .one "q", .each "rs"] }),
       ("VOpt",   { name := "VOpt", slots := [.optOne "a", .optMany "bs", .optOne "c"] }),
       ("pkg.mod.VLong", ⟨"VLeaf", [], none⟩),
+      -- leaf classes whose instances are FALSY in Python (`__bool__` False / `__len__` 0): an id bound to
+      -- such an object is still bound
+      ("VFalsy", { name := "VFalsy", slots := [] }),
+      ("VEmpty", { name := "VEmpty", slots := [] }),
       ("VSelf",  ⟨"VSelf",  [.optOne "pre", .one "inner", .optMany "rest"], some 1⟩),
       -- real classes (key orders as in their from_json)
       ("Parameter", { name := "Parameter", slots := [.firstOf paramAlts] }),
@@ -439,6 +443,8 @@ def classTable : ClassTable where
       -- taxa and tree models (inline sub-objects: Taxa, Taxon, heights / branch-length parameters)
       ("Taxon", { name := "Taxon", slots := [] }),
       ("Taxa", { name := "Taxa", slots := [.many "taxa"] }),
+      -- (`datatype: "nucleotide"` builds an anonymous data type unless an object is registered under that id)
+      ("Alignment", { name := "Alignment", slots := [.one "taxa", .need "datatype"] }),
       ("UnRootedTreeModel", { name := "UnRootedTreeModel", slots := [.one "taxa", .one "branch_lengths"] }),
       ("TimeTreeModel", { name := "TimeTreeModel", slots := [.one "taxa", .one "internal_heights"] }),
       ("ReparameterizedTimeTreeModel",
